@@ -16,6 +16,7 @@ import Mathlib.Tactic.LinearCombination
 import Mathlib.Algebra.Order.Field.Rat
 import Mathlib.Data.Rat.Lemmas
 import Mathlib.Data.Int.GCD
+import Mathlib.Data.String.Basic
 import ChemModel.Model.Balance
 
 namespace ChemModel.Balance
@@ -1270,5 +1271,224 @@ theorem dot_absent_key (subs : List (String × Comp)) (keys : List String) (cs :
   apply get_eq_zero_of_not_key
   intro hk
   exact hck ((mem_compositionKeys subs ck).2 ⟨(nm, c), hnm, hk⟩)
+
+/-! ## Part 13: sums, gcd of a positive vector, the gate's normalised vector -/
+
+theorem sum_map_mul_left (c : ℤ) (l : List ℤ) : (l.map (c * ·)).sum = c * l.sum := by
+  induction l with
+  | nil => simp
+  | cons a r ih => simp only [List.map_cons, List.sum_cons, ih]; ring
+
+theorem sum_pos_of_pos : ∀ (l : List ℤ), l ≠ [] → (∀ k ∈ l, 0 < k) → 0 < l.sum := by
+  intro l
+  induction l with
+  | nil => intro h; exact absurd rfl h
+  | cons a r ih =>
+    intro _ hpos
+    have ha := hpos a (List.mem_cons_self ..)
+    cases r with
+    | nil => simpa using ha
+    | cons b t =>
+      have := ih (by simp) (fun k hk => hpos k (List.mem_cons_of_mem _ hk))
+      simp only [List.sum_cons] at this ⊢
+      omega
+
+theorem listGcd_pos (x : List ℤ) (hne : x ≠ []) (hpos : ∀ k ∈ x, 0 < k) : 0 < listGcd x := by
+  cases x with
+  | nil => exact absurd rfl hne
+  | cons a r =>
+    have ha := hpos a (List.mem_cons_self ..)
+    rcases Nat.eq_zero_or_pos (listGcd (a :: r)) with h0 | h
+    · exfalso
+      have hd := listGcd_dvd (a :: r) a (List.mem_cons_self ..)
+      rw [h0] at hd
+      simp at hd
+      omega
+    · exact h
+
+/-- whatever mode: the vector a numeric candidate is turned into is the normalisation's output -/
+theorem gate_numeric_ok_sol (mode : Mode) (A : Mat) (v : Vec) (x : List Entry)
+    (h : gate mode A (.numeric v) = .ok x) : stage2 (stage1 v) = .ok x := by
+  unfold gate at h
+  simp only at h
+  split at h
+  · cases h
+  · rename_i sol hst
+    have hx : x = sol := by
+      by_cases hm : mode = .symbolic
+      · subst hm; exact (gateChecks_symbolic_ok A sol x h).1
+      · exact (gateChecks_numeric mode hm A sol x h).1
+    rw [hx]; exact hst
+
+/-! ## Part 14: the dict construction succeeds; set-up facts -/
+
+theorem mkDict_some (mode : Mode) (keys : List String) (ks : List ℤ) (hlen : ks.length = keys.length) :
+    ∀ side : List String, (∀ k ∈ side, k ∈ keys) →
+      ∃ d, mkDict mode keys (ks.map fun (i : ℤ) => Entry.num (i : ℚ)) side = some d := by
+  intro side
+  induction side with
+  | nil => intro _; exact ⟨[], rfl⟩
+  | cons k r ih =>
+    intro hsub
+    obtain ⟨d, hd⟩ := ih (fun a ha => hsub a (List.mem_cons_of_mem _ ha))
+    have hk : k ∈ keys := hsub k (List.mem_cons_self ..)
+    have hidx : keys.findIdx (· == k) < (ks.map fun (i : ℤ) => Entry.num (i : ℚ)).length := by
+      rw [List.length_map, hlen]
+      exact List.findIdx_lt_length_of_exists ⟨k, hk, by simp⟩
+    have hc : coeffOf mode keys (ks.map fun (i : ℤ) => Entry.num (i : ℚ)) k
+        = some ((ks.map fun (i : ℤ) => Entry.num (i : ℚ))[keys.findIdx (· == k)]) := by
+      rw [coeffOf_int, List.getElem?_eq_getElem hidx]
+    exact ⟨_, by rw [mkDict, hc, hd]⟩
+
+theorem setupVia_setup (table : List (String × Comp)) (arg : SubstArg) (rset pset : Bool) (reac prod : List String)
+    (p : Problem) (A : Mat) (hs : setupVia table arg rset pset reac prod = .ok (p, A)) : setup p = .ok A := by
+  unfold setupVia at hs
+  split at hs
+  · cases hs
+  · split at hs
+    · cases hs
+    · simp only at hs
+      split at hs
+      · cases hs
+      · rename_i A' hA'
+        injection hs with hs
+        injection hs with h1 h2
+        subst h1; subst h2
+        exact hA'
+
+theorem setup_wellFormed (p : Problem) (A : Mat) (h : setup p = .ok A) : wellFormed A = true := by
+  have hrows := setup_row_length p A h
+  unfold wellFormed
+  rw [List.all_eq_true]
+  intro r hr
+  have h1 := hrows r hr
+  cases hA : A with
+  | nil => rw [hA] at hr; cases hr
+  | cons r0 rest =>
+    have h0 := hrows r0 (by rw [hA]; exact List.mem_cons_self ..)
+    simp [cols, h0, h1]
+
+theorem setup_cols (p : Problem) (A : Mat) (h : setup p = .ok A) (hA : A ≠ []) :
+    cols A = (p.reactants ++ p.products).length := by
+  cases hA' : A with
+  | nil => exact absurd hA' hA
+  | cons r0 rest =>
+    simp only [cols]
+    exact setup_row_length p A h r0 (by rw [hA']; exact List.mem_cons_self ..)
+
+/-! ## Part 15: `sorted(set(...))` is strictly sorted; the duplicate search keeps names distinct -/
+
+section SortedSpec
+variable {α : Type} [LT α] [DecidableRel (α := α) (· < ·)] [DecidableEq α]
+
+theorem insertSorted_pairwise (htri : ∀ a b : α, a < b ∨ a = b ∨ b < a) (htrans : ∀ a b c : α, a < b → b < c → a < c)
+    (x : α) : ∀ l : List α, l.Pairwise (· < ·) → (insertSorted x l).Pairwise (· < ·) := by
+  intro l
+  induction l with
+  | nil => intro _; simp [insertSorted]
+  | cons y r ih =>
+    intro hp
+    obtain ⟨hy, hr⟩ := List.pairwise_cons.1 hp
+    unfold insertSorted
+    by_cases h1 : x = y
+    · simp only [h1, if_true]; exact hp
+    · simp only [h1, if_false]
+      by_cases h2 : x < y
+      · simp only [h2, if_true]
+        refine List.pairwise_cons.2 ⟨?_, hp⟩
+        intro a ha
+        rcases List.mem_cons.1 ha with rfl | ha
+        · exact h2
+        · exact htrans _ _ _ h2 (hy a ha)
+      · simp only [h2, if_false]
+        have hyx : y < x := by
+          rcases htri x y with h | h | h
+          · exact absurd h h2
+          · exact absurd h h1
+          · exact h
+        refine List.pairwise_cons.2 ⟨?_, ih hr⟩
+        intro a ha
+        rcases (mem_insertSorted x a r).1 ha with rfl | ha
+        · exact hyx
+        · exact hy a ha
+
+theorem sortedSet_pairwise (htri : ∀ a b : α, a < b ∨ a = b ∨ b < a) (htrans : ∀ a b c : α, a < b → b < c → a < c)
+    (l : List α) : (sortedSet l).Pairwise (· < ·) := by
+  unfold sortedSet
+  suffices h : ∀ acc : List α, acc.Pairwise (· < ·) → (l.foldl (fun acc x => insertSorted x acc) acc).Pairwise (· < ·) from
+    h [] List.Pairwise.nil
+  induction l with
+  | nil => intro acc h; simpa using h
+  | cons x r ih => intro acc h; exact ih _ (insertSorted_pairwise htri htrans x acc h)
+
+theorem sortedSet_nodup (htri : ∀ a b : α, a < b ∨ a = b ∨ b < a) (htrans : ∀ a b c : α, a < b → b < c → a < c)
+    (hirr : ∀ a : α, ¬ a < a) (l : List α) : (sortedSet l).Nodup := by
+  have := sortedSet_pairwise htri htrans l
+  exact this.imp (fun {a b} (hab : a < b) (heq : a = b) => by subst heq; exact hirr _ hab)
+
+end SortedSpec
+
+theorem sortedSet_nodup_int (l : List ℤ) : (sortedSet l).Nodup :=
+  sortedSet_nodup (fun a b => lt_trichotomy a b) (fun _ _ _ => lt_trans) (fun a => lt_irrefl a) l
+
+theorem sortedSet_nodup_string (l : List String) : (sortedSet l).Nodup :=
+  sortedSet_nodup (fun a b => lt_trichotomy a b) (fun _ _ _ => lt_trans) (fun a => lt_irrefl a) l
+
+
+/-- like `dupSearch_selection`, also keeping distinctness of the names on each side -/
+theorem dupSearch_selection_nodup {α : Type} (isNone : Bool) (core : List String → List String → Except Err α) :
+    ∀ (fuel : ℕ) (allow : Bool) (reac prod : List String) (r : α), reac.Nodup → prod.Nodup →
+      dupSearch isNone core fuel allow reac prod = .ok r →
+      ∃ r' p', core r' p' = .ok r ∧ (∀ s ∈ r', s ∈ reac) ∧ (∀ s ∈ p', s ∈ prod) ∧ (∀ s ∈ r', s ∉ p') ∧
+        r'.Nodup ∧ p'.Nodup := by
+  intro fuel
+  induction fuel with
+  | zero => intro allow reac prod r _ _ h; simp [dupSearch] at h
+  | succ fuel ih =>
+    intro allow reac prod r hnr hnp h
+    unfold dupSearch at h
+    simp only at h
+    split at h
+    · rename_i hemp
+      refine ⟨reac, prod, h, fun s hs => hs, fun s hs => hs, ?_, hnr, hnp⟩
+      intro s hs hp
+      have : s ∈ sortedSet (reac.filter (prod.contains ·)) := by
+        rw [mem_sortedSet, List.mem_filter]
+        exact ⟨hs, by simpa using hp⟩
+      rw [List.isEmpty_iff] at hemp
+      rw [hemp] at this
+      cases this
+    · split at h
+      · cases h
+      · split at h
+        · cases h
+        · split at h
+          · cases h
+          · split at h
+            · rename_i r0 hfirst
+              injection h with h
+              subst h
+              have hmem := firstOk_mem _ _ hfirst
+              obtain ⟨d, _, hd⟩ := List.mem_map.1 hmem
+              obtain ⟨r', p', hc, h1, h2, h3, h4, h5⟩ := ih _ _ _ _ (hnr.filter _) (hnp.filter _) hd
+              exact ⟨r', p', hc, fun s hs => (List.mem_filter.1 (h1 s hs)).1,
+                fun s hs => (List.mem_filter.1 (h2 s hs)).1, h3, h4, h5⟩
+            · have hmem := firstOkValueError_mem _ _ _ h
+              obtain ⟨flags, _, hd⟩ := List.mem_map.1 hmem
+              obtain ⟨r', p', hc, h1, h2, h3, h4, h5⟩ := ih _ _ _ _
+                (by simp only [bruteSides]; exact sortedSet_nodup_string _)
+                (by simp only [bruteSides]; exact sortedSet_nodup_string _) hd
+              refine ⟨r', p', hc, ?_, ?_, h3, h4, h5⟩
+              · intro s hs
+                have := h1 s hs
+                simp only [bruteSides] at this
+                rw [mem_sortedSet] at this
+                exact (List.mem_filter.1 this).1
+              · intro s hs
+                have := h2 s hs
+                simp only [bruteSides] at this
+                rw [mem_sortedSet] at this
+                exact (List.mem_filter.1 this).1
+
 
 end ChemModel.Balance
